@@ -56,6 +56,10 @@ static void cell(unsigned arg, unsigned f, pv_rng* rng, const char* hist, uint64
         uint8_t* o = malloc(32); pv_api_store(s, o); if (memcmp(o, img, 32)) pv_violation("C10/features-lost-in-storage", "features %u: %s vs %s", f, pv_hex(o, 32), pv_hex(img, 32)); free(o);
         pv_api_crypt(s, "pw"); check_getters(s, f ^ 16, "crypt");
         pv_api_crypt(s, "pw"); check_getters(s, f, "crypt-twice");
+        /* queries return the STORED bits: what happens to be enabled at the time of the query does not matter */
+        { unsigned other = pv_randn(rng, 8); pv_api_enable_features(other); check_getters(s, f, "after-the-enabled-mask-changed");
+          uint8_t* o2 = malloc(32); pv_api_store(s, o2); if (memcmp(o2, img, 32)) pv_violation("C10/features-lost-in-storage", "features %u stored under mask %u: %s vs %s", f, other, pv_hex(o2, 32), pv_hex(img, 32)); free(o2);
+          pv_api_enable_features(arg); PV_COUNT("getters.checked_under_a_changed_mask", 1); }
         pv_api_free(s);
     }
     /* decode_explicit */
@@ -135,6 +139,41 @@ static void run_hist(uint64_t idx, pv_rng* rng) {
     PV_DISTINCT("nontrivial", pv_mix(0x415, pv_rand64(rng)));
 }
 
+/* ---------------------------------------------------------------- the mask is process-wide: configured on one thread, honoured on all
+ * The main thread makes the enabling call; 8 threads started afterwards (and working at the same time) run all four entry
+ * points on seeds of every feature value and must see exactly that mask. */
+static unsigned g_conc_mask;
+static bool conc_iter(pv_rng* r, int iter, void* user, char* err, size_t errsz) {
+    (void)user;
+    unsigned f = (unsigned)iter % 32, m = g_conc_mask; bool sup = pv_m_supported(f, m);
+    int want = sup ? POLYSEED_OK : POLYSEED_ERR_UNSUPPORTED;
+    pv_mseed ms; pv_gen_mseed(r, 7, false, &ms); ms.features = f;
+    unsigned coin = pv_gen_coin(r); pv_mlang* L; do { L = &pv_langs[pv_randn(r, (uint32_t)pv_nlangs)]; } while (!L->lib || !strncmp(L->key, "zh", 2));
+    uint8_t* img = malloc(32); pv_m_image(&ms, img); char ph[2048]; pv_m_encode(&ms, L, coin, ph, sizeof ph);
+    bool ok = true; polyseed_data* s = NULL;
+    int st = pv_api_load(img, &s);
+    if (st != want) { ok = false; snprintf(err, errsz, "mask %u enabled by the main thread: load of feature value %u -> %s", m, f, pv_status_name(st)); }
+    if (st == POLYSEED_OK) { for (unsigned q = 0; q < 8; ++q) if (pv_api_get_feature(s, q) != (f & q & 7)) { ok = false; snprintf(err, errsz, "get_feature(%u) of features %u", q, f); } pv_api_free(s); }
+    s = NULL; st = pv_api_decode_explicit(ph, coin, L->lib, &s);
+    if (st != want) { ok = false; snprintf(err, errsz, "mask %u enabled by the main thread: decode_explicit of feature value %u -> %s", m, f, pv_status_name(st)); }
+    if (st == POLYSEED_OK) pv_api_free(s);
+    s = NULL; st = pv_api_decode(ph, coin, NULL, &s);
+    if (st != want && st != POLYSEED_ERR_MULT_LANG) { ok = false; snprintf(err, errsz, "mask %u enabled by the main thread: decode of feature value %u -> %s", m, f, pv_status_name(st)); }
+    if (st == POLYSEED_OK) pv_api_free(s);
+    if (f < 8) { s = NULL; st = pv_api_create(f, &s); if (st != want) { ok = false; snprintf(err, errsz, "mask %u enabled by the main thread: create(%u) -> %s", m, f, pv_status_name(st)); } if (st == POLYSEED_OK) pv_api_free(s); }
+    free(img);
+    return ok;
+}
+static uint64_t n_conc(void) { return 8 * pv_scaled(1, 20); }
+static void run_conc(uint64_t idx, pv_rng* rng) {
+    g_conc_mask = (unsigned)(idx % 8);
+    pv_api_enable_features(g_conc_mask | (pv_randn(rng, 2) ? 0xfffffff8u : 0));
+    enum { NT = 8, IT = 320 }; static pv_conc_result res[NT];
+    uint64_t seed = pv_rand64(rng);
+    pv_concurrent(NT, IT, seed, 30, conc_iter, NULL, res);
+    if (pv_concurrent_verdict(res, NT, IT, "C10/mask-not-honoured-on-other-threads", "concurrent.cells_ok")) PV_DISTINCT("nontrivial", pv_mix(seed, idx));
+}
+
 static void fini(void) { pv_set_flag("exhaustive.matrix(argument x 32 feature values x 4 entry points x with/without history)", true); }
 
 /* the default state (no enabling call at all) can only be observed in a fresh process: this is the first section,
@@ -155,6 +194,6 @@ static void run_default(uint64_t idx, pv_rng* rng) {
 }
 
 int main(int argc, char** argv) {
-    static const pv_section secs[] = { { "default", n_default, run_default }, { "matrix", n_matrix, run_matrix }, { "histories", n_hist, run_hist } };
-    return pv_main(argc, argv, "C10", secs, 3, init, fini);
+    static const pv_section secs[] = { { "default", n_default, run_default }, { "matrix", n_matrix, run_matrix }, { "histories", n_hist, run_hist }, { "threads", n_conc, run_conc } };
+    return pv_main(argc, argv, "C10", secs, 4, init, fini);
 }
